@@ -496,6 +496,14 @@ class Representation(ObjectWithFields):
             if segment_num is None:
                 st = segment_time + (self.segment_duration >> 2)
                 segment_num = int(st // self.segment_duration) + self.start_number
+                # segment durations might not all be the same: use the
+                # segment whose start is nearest to this time
+                # (see get_segment_index)
+                segment_num = self.num_media_segments + self.start_number
+                for idx, seg in enumerate(self.segments[1:]):
+                    if (seg.start + (seg.duration // 2)) >= segment_time:
+                        segment_num = idx + self.start_number
+                        break
             mod_segment = 1 + segment_num - self.start_number
             return SegmentNumberAndTime(segment_num, mod_segment, 0)
 
